@@ -5,5 +5,9 @@ def text_edit(old, new):
         return src.replace(old, new, 1) if old in src else None
     return edit
 MUTANTS = [
+    Mutant('obs_first_assignment', 'src/pharmpy/modeling/expressions.py', text_edit("    for i in range(len(stats) - 1, -1, -1):\n        s = stats[i]\n        if isinstance(s, Assignment) and s.symbol == dv:", "    for i in range(len(stats)):\n        s = stats[i]\n        if isinstance(s, Assignment) and s.symbol == dv:"), 'F3', 'first assignment of the DV'),
+    Mutant('obs_full_expression', 'src/pharmpy/modeling/expressions.py', text_edit("    for j in range(i - 1, -1, -1):\n        y = y.subs({stats[j].symbol: stats[j].expression})\n\n    return y", "    return stats.full_expression(y)"), 'F3', 'later definitions substituted'),
+    Mutant('declarative_drops_subs', 'src/pharmpy/modeling/expressions.py', text_edit("            s = s.subs(current)\n            newstats.append(s)", "            s.subs(current)\n            newstats.append(s)"), 'F4', 'result of subs dropped'),
+    Mutant('generic_drops_obs_trans', 'src/pharmpy/model/external/generic/generic.py', text_edit("        observation_transformation=model.observation_transformation,\n", ""), 'F2', 'field not carried over'),
     Mutant('rename_forgets_parameters', 'src/pharmpy/modeling/common.py', text_edit("        parameters=Parameters.create(new),\n        statements=model.statements.subs(d),", "        statements=model.statements.subs(d),"), 'F1', 'parameters not renamed'),
 ]
